@@ -452,9 +452,28 @@ func genTree(c *core.Ctx) (*core.N, string) {
 	return n, chain
 }
 
+// tinyLengths adds to a share of the lengths a multiple of 2^-34 (about 6e-11): still exact in float64, sums
+// included (at most 40 significant bits), but not representable with 9 decimals — a merged length that is
+// rounded, truncated or printed with a fixed number of decimals is no longer the sum (seeded C06-12).
+func tinyLengths(g *core.G, n *core.N) {
+	var rec func(x *core.N)
+	rec = func(x *core.N) {
+		if x.E != nil && x.E.Len >= 0 && g.Chance(0.6) {
+			x.E.Len += float64(1+g.Intn(1023)) / float64(uint64(1)<<34)
+		}
+		for _, k := range x.Kids {
+			rec(k)
+		}
+	}
+	rec(n)
+}
+
 func libCase(c *core.Ctx) {
 	g := c.G
 	n, chain := genTree(c)
+	if g.Chance(0.3) {
+		tinyLengths(g, n)
+	}
 	for step := 0; step < 3 && n != nil; step++ {
 		rm := pickRemoval(g, n)
 		if chain != "" && step == 0 && g.Chance(0.8) {
@@ -543,6 +562,9 @@ func sweep(c *core.Ctx, maxTips int) {
 		n = moveRoot(n, g.Intn(len(n.Kids)))
 	}
 	core.NumberEdges(n)
+	if g.Chance(0.3) {
+		tinyLengths(g, n)
+	}
 	tips := n.TipNames()
 	nt := len(tips)
 	for mask := 0; mask < 1<<uint(nt); mask++ {
